@@ -38,8 +38,15 @@ impl HalfSpace {
     /// of normal), `-1.` when the `vertex` lies on the negative half space
     /// and `0.` when a more precise test is needed
     pub fn clip(&self, vertex: DVec3) -> f64 {
+        self.clip_with_error_factor(vertex, 1.)
+    }
+
+    /// Same as [`HalfSpace::clip`], for a `vertex` whose location is only known up to
+    /// `error_factor` times the usual rounding error (e.g. the intersection of nearly
+    /// parallel planes).
+    pub(super) fn clip_with_error_factor(&self, vertex: DVec3, error_factor: f64) -> f64 {
         let clip = self.plane.n.dot(vertex) - self.d;
-        if clip.abs() < self.errb {
+        if clip.abs() < self.errb * error_factor {
             0.
         } else {
             clip.signum()
